@@ -336,50 +336,115 @@ def body(chk, db, cfgname):
 
     # ------------------------------------------------------------------ R5 bulk coverage
     r5 = chk.rule("C13-R5", "bulk calls visit every element of the map they iterate (ElementsMap / NonTrivialElements)", "F1 full-range loops", 4)
-    for nm, want in (("Pomerol::TwoParticleGFContainer::prepareAll", [EMAP]), ("Pomerol::TwoParticleGFContainer::computeAll_nosplit", [EMAP]),
-                     ("Pomerol::TwoParticleGFContainer::computeAll_split", [NTE, NTE])):
+    from pv.loops import covers, is_element
+    from pv import paths as P_
+    G2q = "Pomerol::TwoParticleGF::"
+
+    def map_loops(f, ctx, M):
+        out = []
+        for j, n in f.walk(f.body):
+            if n["k"] in ("for", "forrange"):
+                shp = loop_shape(f, ctx, j)
+                if shp["kind"] in ("iter", "range") and shp.get("bound") == M:      # a std::map is only traversed through iterators
+                    out.append((j, shp))
+        return out
+
+    def skipping_paths(f, ctx, L, actions):
+        """feasible paths through one iteration of L that execute none of the action nodes, with their facts"""
+        hdr, plist = P_.loop_body_paths(f, L)
+        res = []
+        apos = {f.cfg.pos1(a)[0] for a in actions if f.cfg.pos1(a)}
+        for path in plist:
+            if apos & set(path[1:]):
+                continue
+            pf = P_.path_facts(f, ctx, path)
+            if P_.feasible(pf):
+                res.append(pf)
+        return res
+
+    for nm, M, wi, action_names, skip_ok in (
+            ("Pomerol::TwoParticleGFContainer::prepareAll", EMAP, 0, (G2q + "prepare",), None),
+            ("Pomerol::TwoParticleGFContainer::computeAll_nosplit", EMAP, 0, (G2q + "compute",), None),
+            ("Pomerol::TwoParticleGFContainer::computeAll_split", NTE, 0, (G2q + "compute",), "colour"),
+            ("Pomerol::TwoParticleGFContainer::computeAll_split", NTE, 1, ("boost::mpi::broadcast",), None)):
         f = db.fn(nm)
         ctx = Ctx(f, db)
-        found = []
-        for j, n in f.walk(f.body):
-            if n["k"] == "for":
-                shp = loop_shape(f, ctx, j)
-                if shp["kind"] == "iter" and shp["bound"][0] == "field" and shp["bound"][1] in (EMAP[1], NTE[1]):
-                    found.append((j, shp))
-        for wi, w in enumerate(want):
-            site = "%s:loop%d(%s)" % (nm, wi, w[1].split("::")[-1])
-            cands = [(j, s) for j, s in found if s["bound"][1] == w[1]]
-            if len(cands) <= wi:
-                r5.bad(site, f.loc(), "no full iterator loop over %s" % w[1].split("::")[-1], cfgname)
+        site = "%s:loop%d(%s)" % (nm, wi, M[1].split("::")[-1])
+        with r5.guard(site, f.loc(), cfgname):
+            loops_ = map_loops(f, ctx, M)
+            if len(loops_) <= wi:
+                if loops_ or any(n_["k"] in ("for", "forrange", "while") for _, n_ in f.walk(f.body)):
+                    raise AnalysisBroken("loop %d over %s not found in a recognised form" % (wi, M[1].split("::")[-1]))
+                r5.bad(site, f.loc(), "no loop over %s" % M[1].split("::")[-1], cfgname)
                 continue
-            j, shp = cands[wi]
-            exits = [e for e in shp["exits"]] + [e for e in shp.get("continues", [])]
-            if exits:
-                r5.bad(site, f.loc(exits[0][0]), "'%s' inside the bulk loop: some elements are skipped" % exits[0][1], cfgname)
+            j, shp = loops_[wi]
+            if shp["exits"]:
+                r5.bad(site, f.loc(shp["exits"][0][0]), "'%s' inside the bulk loop: the elements after it are never visited" % shp["exits"][0][1], cfgname)
+                continue
+            if not covers(shp, M):
+                r5.bad(site, f.loc(j), "the bulk loop does not run over all of %s (start %s, bound %s)" % (M[1].split("::")[-1], shp.get("start"), shp.get("bound")), cfgname)
+                continue
+            acts = [x for x, n_ in f.walk(shp["body"]) if n_["k"] == "call" and strip_targs(n_.get("cname") or "") in action_names]
+            if not acts:
+                raise AnalysisBroken("the per-element action (%s) is not called inside the loop" % ", ".join(a_.split("::")[-1] for a_ in action_names))
+            # an action inside an inner loop (over the parts of the element): what must happen for every element is that inner loop
+            # (it may run zero times); its condition is evaluated whenever the loop statement is reached
+            acts2 = []
+            for a_ in acts:
+                inner = [L_ for L_ in enclosing_loops(f, a_) if L_ != j and any(x == L_ for x, _ in f.walk(shp["body"]))]
+                if inner and f.nodes[inner[-1]].get("c") is not None:
+                    acts2.append(f.nodes[inner[-1]]["c"])
+                else:
+                    acts2.append(a_)
+            acts = acts2
+            skips = skipping_paths(f, ctx, j, acts)
+            bad_skip = None
+            for pf in skips:
+                if skip_ok == "colour":
+                    # allowed: the element belongs to another colour (a comparison of the element's colour with this rank's colour)
+                    colourish = [x for x in pf if key_contains(x, lambda y: y[0] == "var" and "color" in str(y[2]).lower())]
+                    if colourish:
+                        continue
+                bad_skip = pf
+            if bad_skip is not None:
+                conds = "; ".join(sorted(str(x)[:80] for x in bad_skip if x[0] in ("true", "false")))[:200]
+                r5.bad(site, f.loc(j), "some elements are skipped: an iteration can finish without %s (%s)" % (action_names[0].split("::")[-1], conds or "unconditionally"), cfgname)
             else:
-                r5.ok(site, f.loc(j), "begin()..end() with ++ and no break/continue/return", cfgname)
+                r5.ok(site, f.loc(j), "every element of %s is visited and %s is executed for it%s" % (M[1].split("::")[-1], action_names[0].split("::")[-1],
+                                                                                                     " (except elements of another colour)" if skip_ok else ""), cfgname)
     # fill(): every requested combination reaches set() unless present
     fills = [f for f in db.fns.values() if strip_targs(f.name) == IC4 + "::fill"]
     for f in sorted(fills, key=lambda x: x.qn):
         ctx = Ctx(f, db)
-        at = guard_facts(f, ctx)
         calls = [j for j, n in f.walk(f.body) if n["k"] == "call" and strip_targs(n.get("cname") or "") == IC4 + "::set"]
         site = "%s:requests" % strip_targs(f.name)
-        good = False
-        for j in calls:
-            L = enclosing_loops(f, j)
-            if L:
-                shp = loop_shape(f, ctx, L[0])
-                arg = ctx.key(f.nodes[j]["args"][0])
-                fa = at.get(f.cfg.pos1(j), frozenset())
-                extra = [x for x in fa if key_contains(x, lambda k: k == shp.get("var")) and not (x[0] == "!=" ) and
-                         not (x[0] == "false" and x[1][0] == "mcall" and x[1][1] == IC4 + "::isInContainer")]
-                if shp["kind"] == "iter" and not shp["exits"] and arg in (("op", "*", shp["var"]), ("un", "*", shp["var"])) and not extra:
-                    good = True
-        if good:
-            r5.ok(site, f.loc(), "set(*iter) for every requested combination not yet present", cfgname)
-        else:
-            r5.bad(site, f.loc(), "fill() does not hand every requested combination (not yet present) to set()", cfgname)
+        with r5.guard(site, f.loc(), cfgname):
+            if len(calls) != 1:
+                raise AnalysisBroken("fill(): expected one call of set()")
+            C = calls[0]
+            L = [x for x in enclosing_loops(f, C) if f.nodes[x]["k"] in ("for", "forrange")]
+            if not L:
+                raise AnalysisBroken("fill(): set() is not called from a loop over the requested combinations")
+            shp = loop_shape(f, ctx, L[0])
+            if shp["kind"] not in ("iter", "range") or shp["exits"]:
+                if shp["exits"]:
+                    r5.bad(site, f.loc(shp["exits"][0][0]), "fill() stops at the first '%s': later requested combinations are never stored" % shp["exits"][0][1], cfgname)
+                    continue
+                raise AnalysisBroken("fill(): loop form not recognised")
+            arg = ctx.key(f.nodes[C]["args"][0])
+            if not is_element(arg, shp, shp["bound"]):
+                r5.bad(site, f.loc(C), "set() is not called with the combination visited by the loop (%s)" % f.s(f.nodes[C]["args"][0])[:50], cfgname)
+                continue
+            bad_skip = None
+            for pf in skipping_paths(f, ctx, L[0], [C]):
+                present = [x for x in pf if x[0] == "true" and x[1][0] == "mcall" and x[1][1] == IC4 + "::isInContainer" and is_element(x[1][3], shp, shp["bound"])]
+                if not present:
+                    bad_skip = pf
+            if bad_skip is not None:
+                r5.bad(site, f.loc(C), "fill() does not hand every requested combination (not yet present) to set(): an iteration can skip it under %s" % (
+                    "; ".join(sorted(str(x)[:70] for x in bad_skip if x[0] in ("true", "false")))[:160] or "no condition"), cfgname)
+            else:
+                r5.ok(site, f.loc(), "set(x) for every requested combination x not yet present", cfgname)
 
     chk.undecided.append("value-level equality with a directly constructed TwoParticleGF (follows from R1/R2 + C02); behaviour of createElement for unprepared operators")
 
